@@ -231,12 +231,17 @@ func (c *ShipConnection) setHandshakeTimer(timerType timeoutTimerType, duration 
 
 	c.setHandshakeTimerRunning(true)
 	c.setHandshakeTimerType(timerType)
+	generation := c.nextHandshakeTimerGeneration()
 
 	go func() {
 		select {
 		case <-c.handshakeTimerStopChan:
 			return
 		case <-time.After(duration):
+			// a stopped or replaced timer must not fire, even if its stop signal got lost
+			if !c.isHandshakeTimerGeneration(generation) {
+				return
+			}
 			c.setHandshakeTimerRunning(false)
 			c.handleState(true, nil)
 			return
@@ -254,7 +259,27 @@ func (c *ShipConnection) stopHandshakeTimer() {
 	case c.handshakeTimerStopChan <- struct{}{}:
 	default:
 	}
+	// invalidate the running timer in case it did not receive the stop signal
+	c.nextHandshakeTimerGeneration()
 	c.setHandshakeTimerRunning(false)
+}
+
+// start a new handshake timer generation, invalidating all previously armed timers
+func (c *ShipConnection) nextHandshakeTimerGeneration() uint64 {
+	c.handshakeTimerMux.Lock()
+	defer c.handshakeTimerMux.Unlock()
+
+	c.handshakeTimerGeneration++
+
+	return c.handshakeTimerGeneration
+}
+
+// check if the given handshake timer generation is still the current one
+func (c *ShipConnection) isHandshakeTimerGeneration(generation uint64) bool {
+	c.handshakeTimerMux.Lock()
+	defer c.handshakeTimerMux.Unlock()
+
+	return c.handshakeTimerGeneration == generation
 }
 
 func (c *ShipConnection) setHandshakeTimerRunning(value bool) {
